@@ -98,6 +98,9 @@ pub struct ZKey {
     pub sub_locked: SignedSecretKey,
     /// primary key locked with `pw`, subkeys unprotected
     pub prim_locked: SignedSecretKey,
+    /// the certificate with a second, properly bound encryption subkey *in front of* the usual one
+    /// (cheap algorithms only); the usual subkey is then `secret_subkeys[1]`
+    pub two_subkeys: Option<SignedSecretKey>,
     pub pw: Password,
 }
 
@@ -192,7 +195,29 @@ fn generate(kind: Kind) -> ZKey {
     sub_locked.secret_subkeys = locked.secret_subkeys.clone();
     let mut prim_locked = secret.clone();
     prim_locked.primary_key = locked.primary_key.clone();
-    ZKey { kind, version, secret, public, locked, sub_locked, prim_locked, pw }
+    let two_subkeys = match kind.shape().1 {
+        Some(sub_type) if !matches!(sub_type, KeyType::Rsa(_)) => {
+            let mut rng2 = ChaCha8Rng::seed_from_u64(0x5EED_5000 + seed);
+            let mut b2 = SecretKeyParamsBuilder::default();
+            b2.version(version)
+                .key_type(KeyType::Ed25519)
+                .can_certify(true)
+                .created_at(Timestamp::from_secs(CREATED))
+                .primary_user_id("extra".into())
+                .subkey(SubkeyParamsBuilder::default().version(version).key_type(sub_type).can_encrypt(EncryptionCaps::All).created_at(Timestamp::from_secs(CREATED + 1)).build().expect("extra subkey params"));
+            let extra = b2.build().expect("extra key params").generate(&mut rng2).expect("extra key generation");
+            let extra_sub = extra.secret_subkeys[0].key.clone();
+            let mut flags = pgp::packet::KeyFlags::default();
+            flags.set_encrypt_comms(true);
+            flags.set_encrypt_storage(true);
+            let sig = extra_sub.sign(&mut rng2, &secret.primary_key, &secret.primary_key.public_key(), &Password::empty(), flags, None).expect("bind extra subkey");
+            let mut two = secret.clone();
+            two.secret_subkeys.insert(0, pgp::composed::SignedSecretSubKey::new(extra_sub, vec![sig]));
+            Some(two)
+        }
+        _ => None,
+    };
+    ZKey { kind, version, secret, public, locked, sub_locked, prim_locked, two_subkeys, pw }
 }
 
 static ZOO: OnceLock<Vec<OnceLock<ZKey>>> = OnceLock::new();
